@@ -196,6 +196,12 @@ def spellings(u, add):
                                        Field(8, ('string',), 'optional', tag='thrift:"nm,0008,optional"'),
                                        Field(9, ('map', ('double',), ('i32',))),
                                        Field(10, ('ptr', ('binary',)), 'optional')]))
+    # a named type of kind int is an enum as well when the annotation names it
+    EI = ('enum', 'EnumI')
+    add('spell', Struct('SpIntEnum', [Field(1, EI), Field(2, ('list', EI)), Field(3, ('map', EI, ('i32',)), 'optional'),
+                                      Field(4, ('ptr', EI), 'optional'),
+                                      Field(5, ('i64',), go_text='EnumI', model_text='(int64 EnumI)', tag='frugal:"5,default,i64"'),
+                                      Field(6, ('map', ('string',), ('set', EI)))]))
     # an ignored field may have any Go type
     add('spell', Struct('SpIgnoredUnsup', [Field(1, ('i32',)),
                                            Field(0, ('i32',), go_text='uint32', model_text='(unsup 5)', name='Count', ignored=True),
@@ -262,6 +268,12 @@ def invalid_defs(u, add):
     one('[]*string', '(slice (ptr string))', 'frugal:"1,default,set<string>"')
     one('map[string]*int32', '(map string (ptr int32))', 'frugal:"1,default,map<string:i32>"')
     one('map[string]*[]byte', '(map string (ptr (slice uint8)))', 'frugal:"1,default,map<string:binary>"')
+    # ... also when the tag carries no type annotation
+    one('map[string]*int32', '(map string (ptr int32))', 'frugal:"1,default"')
+    one('map[string]*int32', '(map string (ptr int32))', 'thrift:"m,1"')
+    one('map[string]*string', '(map string (ptr string))', 'frugal:"1"')
+    one('map[int32]map[string]*int64', '(map int32 (map string (ptr (int64 -))))', 'frugal:"1,optional"')
+    one('map[*int32]int32', '(map (ptr int32) int32)', 'frugal:"1,default"')
     one('*int32', '(ptr int32)', 'frugal:"1,default,i32"')
     one('*int32', '(ptr int32)', 'frugal:"1,required,i32"')
     one('*string', '(ptr string)', 'frugal:"1"')
